@@ -324,7 +324,8 @@ enum class log_kind
 {
   direct,
   macro,
-  parts
+  parts,
+  assigned
 };
 
 std::string do_log(log_kind const kind, std::string const &id, std::string const &lvl, std::string const &msg, std::string const &msg2)
@@ -347,6 +348,14 @@ std::string do_log(log_kind const kind, std::string const &id, std::string const
     // several insertions of different types into one temporary_output (moved from insertion to insertion)
     o->log(to_level(*l), fcppt::log::out << msg << msg2.size() << msg2);
     return collect_sinks();
+  case log_kind::assigned:
+  {
+    // move assignment of a temporary_output: the first text is gone
+    fcppt::log::detail::temporary_output t{fcppt::log::out << msg};
+    t = fcppt::log::out << msg2;
+    o->log(to_level(*l), t);
+    return collect_sinks();
+  }
   }
   return "bad-op";
 }
@@ -428,6 +437,10 @@ std::optional<std::string> stateless(std::vector<std::string> const &t)
         fcppt::log::location &r = (*cur /= parse_name(parts[1]));
         ok = ok && &r == &*cur; // operator/= returns its left operand
       }
+      else if (parts.size() == 2 && parts[0] == "a")
+        *cur = *cur / parse_name(parts[1]); // assigned to the object it was computed from
+      else if (parts.size() == 2 && parts[0] == "m")
+        *cur = std::move(*cur) / parse_name(parts[1]);
       else if (parts.size() == 2 && parts[0] == "s")
       {
         fcppt::log::location const before{*cur};
@@ -596,6 +609,8 @@ std::string handle_core(std::vector<std::string> const &t)
     return do_log(log_kind::macro, t[1], t[2], t[3], "");
   if (op == "logp" && t.size() == 5)
     return do_log(log_kind::parts, t[1], t[2], t[3], t[4]);
+  if (op == "loga" && t.size() == 5)
+    return do_log(log_kind::assigned, t[1], t[2], t[3], t[4]);
   if (op == "fmt" && t.size() == 3)
   {
     fcppt::log::object const *const o = get_obj(t[1]);
@@ -609,7 +624,10 @@ std::string handle_core(std::vector<std::string> const &t)
       return "bad-op";
     clear_sinks();
     fcppt::log::level_stream const &stream = o->level_sink(to_level(*l));
-    stream.log(fcppt::log::out << t[4], parse_fmt(t[3]));
+    if (t[3] == "@") // the object's own formatter, the very same object, as additional formatter
+      stream.log(fcppt::log::out << t[4], o->formatter());
+    else
+      stream.log(fcppt::log::out << t[4], parse_fmt(t[3]));
     bool const same = &stream == &o->level_streams()[to_level(*l)] && &stream == &context->level_streams().get()[to_level(*l)];
     return collect_sinks() + " same=" + (same ? "1" : "0");
   }
